@@ -268,6 +268,9 @@ def subst_index(t, env: Dict[str, Any]):
     if k in ("pa", "pb", "oth"):
         inner = subst_index(t[1], env)
         return STAR if inner == STAR else (k, inner)
+    if k == "k":  # the position given by an integer term (a computed subscript): follows the term
+        s2 = subst_sym(t[1], env)
+        return STAR if sym_has_star(s2) else ("k", s2)
     return t
 
 
@@ -279,6 +282,8 @@ def index_vars(t, out: set) -> None:
         index_vars(t[3], out)
     elif k in ("pa", "pb", "oth"):
         index_vars(t[1], out)
+    elif k == "k":
+        sym_index_vars(t[1], out)
 
 
 def index_str(t) -> str:
@@ -293,6 +298,8 @@ def index_str(t) -> str:
         return f"{k}({index_str(t[1])})"
     if k == "ghost":
         return f"ghost#{t[1]}"
+    if k == "k":
+        return "at(" + str(t[1])[:40] + ")"
     return k
 
 
@@ -914,6 +921,8 @@ def map_index_term(t, fn):
     if k in ("pa", "pb", "oth"):
         inner = map_index_term(t[1], fn)
         return STAR if inner == STAR else (k, inner)
+    if k == "k":
+        return ("k", map_sym_indices(t[1], fn))
     return t
 
 
